@@ -123,6 +123,14 @@ struct QuantFamily {
       os << " min="; Kit::show(os, sk.get_min_item());
       os << " max="; Kit::show(os, sk.get_max_item());
     }
+    if (!sk.is_empty()) {
+      // queries answered from the sketch's own cached sorted view (get_sorted_view above builds a fresh one): the cache is part of
+      // the object's state, it must follow every change of the sketch
+      LibScope ls;
+      os << " q:";
+      for (double r : {0.0, 0.25, 0.5, 0.75, 1.0}) { os << ' '; Kit::show(os, sk.get_quantile(r)); }
+      os << " r:" << sk.get_rank(sk.get_min_item()) << ',' << sk.get_rank(sk.get_max_item(), false);
+    }
     os << "\nitems:";
     size_t cnt = 0;
     for (auto it = sk.begin(); it != sk.end() && cnt <= sk.get_num_retained(); ++it, ++cnt) { os << ' '; Kit::show(os, (*it).first); os << '*' << (*it).second; }
